@@ -678,3 +678,326 @@ if __name__ == "__main__":
             if "target" in n:
                 n["target"] = n["target"].decode("latin1")
             print(p.decode("latin1") or "/", json.dumps(n))
+
+
+# ==================================================================================================
+# Encoder for (possibly adversarial) images: everything is stored uncompressed (metadata blocks with
+# the 0x8000 bit, data blocks with bit 24), so any field can be given an arbitrary value.
+#
+# node = {"kind": "dir"|"file"|"slink"|"blk"|"chr"|"fifo"|"sock", "name": bytes, "mode", "uid", "gid",
+#         "mtime", "children": [...], "target": bytes, "devno": int, "data": bytes, "xattrs": {k: v},
+#         "id": any (to be referenced by links)}
+# a child may instead be a link  {"link": id, "name": bytes, "etype": optional raw type}  (hard link, or a
+# loop when id names an ancestor).  Override keys (all optional):
+#   file: o_words (list of raw size words), o_start, o_size, o_frag (idx, off), o_sparse, o_nlink, ext
+#   dir:  o_nlink, o_parent, o_size, o_start_block, o_offset, ext, raw_order (keep children order unsorted)
+#   any:  o_type (raw inode type), o_uid_idx, o_gid_idx, o_xattr_idx, o_inum
+#   entry (child or link): o_etype, o_delta, o_offset, o_namesize
+# opts: block_size, frag (pack tails into fragment blocks), export, comp_id, flags_xor, super_overrides {field: value},
+#       pad (default 4096), mtime
+KIND_T = {"dir": 1, "file": 2, "slink": 3, "blk": 4, "chr": 5, "fifo": 6, "sock": 7}
+XPFX = [(b"user.", 0), (b"trusted.", 1), (b"security.", 2)]
+
+
+class _Meta:
+    def __init__(self):
+        self.buf = bytearray()
+
+    def pos(self):
+        return ((len(self.buf) // 8192) * 8194, len(self.buf) % 8192)
+
+    def add(self, b):
+        self.buf += b
+
+    def serialize(self):
+        out = bytearray()
+        for i in range(0, len(self.buf), 8192):
+            c = self.buf[i:i + 8192]
+            out += struct.pack("<H", 0x8000 | len(c)) + c
+        return bytes(out)
+
+
+def _table(entries_bytes, per_block_bytes=8192):
+    """returns (metadata blocks bytes, list of relative block starts)"""
+    out = bytearray()
+    locs = []
+    for i in range(0, len(entries_bytes), per_block_bytes):
+        c = entries_bytes[i:i + per_block_bytes]
+        locs.append(len(out))
+        out += struct.pack("<H", 0x8000 | len(c)) + c
+    return bytes(out), locs
+
+
+def encode(root, opts=None):
+    opts = dict(opts or {})
+    bs = opts.get("block_size", 4096)
+    ids = []
+
+    def idx_of(v):
+        if v not in ids:
+            ids.append(v)
+        return ids.index(v)
+
+    # ---- data area ----
+    data = bytearray()
+    frags = []          # (start, size word)
+    fragbuf = bytearray()
+    file_layout = {}
+
+    def flush_frag():
+        nonlocal fragbuf
+        if fragbuf:
+            frags.append((96 + len(data), len(fragbuf) | (1 << 24)))
+            data.extend(fragbuf)
+            fragbuf = bytearray()
+
+    def place_file(n):
+        d = n.get("data", b"")
+        start = 96 + len(data)
+        words = []
+        full = len(d) // bs
+        for i in range(full):
+            blk = d[i * bs:(i + 1) * bs]
+            if not any(blk) and opts.get("sparse", True):
+                words.append(0)
+            else:
+                words.append(bs | (1 << 24))
+                data.extend(blk)
+        tail = d[full * bs:]
+        frag = (NOFRAG, 0)
+        if tail:
+            if opts.get("frag"):
+                if len(fragbuf) + len(tail) > bs:
+                    flush_frag()
+                frag = (len(frags), len(fragbuf))
+                fragbuf.extend(tail)
+            else:
+                words.append(len(tail) | (1 << 24))
+                data.extend(tail)
+        if not any(w for w in words):
+            start = 0
+        file_layout[id(n)] = (start, words, frag)
+
+    def walk_files(n):
+        if n.get("kind") == "file":
+            place_file(n)
+        for c in n.get("children", []):
+            if "link" not in c:
+                walk_files(c)
+
+    walk_files(root)
+    # fragment index fix-up: tails placed before their block was flushed keep the index they were given
+    flush_frag()
+
+    # ---- xattrs ----
+    xsets = []
+    xkv = _Meta()
+    xids = bytearray()
+
+    def xattr_index(n):
+        xa = n.get("xattrs")
+        if not xa:
+            return NOXATTR
+        key = tuple(sorted(xa.items()))
+        for i, (k, _) in enumerate(xsets):
+            if k == key:
+                return i
+        ref = xkv.pos()
+        size = 0
+        for k, v in key:
+            for pfx, t in XPFX:
+                if k.startswith(pfx):
+                    kk = k[len(pfx):]
+                    break
+            else:
+                raise ValueError("xattr key prefix")
+            rec = struct.pack("<HH", t, len(kk)) + kk + struct.pack("<I", len(v)) + v
+            xkv.add(rec)
+            size += len(rec)
+        xsets.append((key, None))
+        xids.extend(struct.pack("<QII", (ref[0] << 16) | ref[1], len(key), size))
+        return len(xsets) - 1
+
+    # ---- inode / directory tables (iterate to a fixed point because of forward references) ----
+    known = {}      # node id -> (ref, inum, kind)
+    nlinks = {}
+
+    def count_links(n):
+        for c in n.get("children", []):
+            if "link" in c:
+                nlinks[c["link"]] = nlinks.get(c["link"], 1) + 1
+            else:
+                count_links(c)
+    count_links(root)
+
+    for attempt in range(4):
+        itab, dtab = _Meta(), _Meta()
+        counter = [0]
+        newknown = {}
+        exports = {}
+
+        def emit(n, parent_inum):
+            kind = n["kind"]
+            kids = []
+            if kind == "dir":
+                for c in n.get("children", []):
+                    if "link" in c:
+                        ref, inum, k2 = known.get(c["link"], ((0, 0), 1, "file"))
+                        kids.append((c, ref, inum, KIND_T.get(k2, 2)))
+                # own number is assigned after the children (post-order)
+                sub = []
+                for c in n.get("children", []):
+                    if "link" not in c:
+                        sub.append(c)
+                # children need the parent's number: it is counter after all descendants; compute by dry count
+                def count(x):
+                    return 1 + sum(count(y) for y in x.get("children", []) if "link" not in y)
+                my_inum = n.get("o_inum", counter[0] + count(n))
+                for c in sub:
+                    ref, inum = emit(c, my_inum)
+                    kids.append((c, ref, inum, KIND_T[c["kind"]]))
+            counter[0] += 1
+            inum = n.get("o_inum", counter[0])
+            typ = KIND_T[kind]
+            xi = n.get("o_xattr_idx", xattr_index(n))
+            hdr = lambda t: struct.pack("<HHHHII", n.get("o_type", t), n.get("mode", 0o644) & 0xFFFF,
+                                        n.get("o_uid_idx", idx_of(n.get("uid", 0))),
+                                        n.get("o_gid_idx", idx_of(n.get("gid", 0))), n.get("mtime", 0) & 0xFFFFFFFF, inum)
+            nl = nlinks.get(n.get("id"), 1)
+            if kind == "dir":
+                if not n.get("raw_order"):
+                    kids.sort(key=lambda k: k[0]["name"])
+                start = dtab.pos()
+                listing = bytearray()
+                i = 0
+                while i < len(kids):
+                    base_ref, base_inum = kids[i][1], kids[i][2]
+                    grp = []
+                    while (i < len(kids) and len(grp) < n.get("o_hdr_max", 256) and kids[i][1][0] == base_ref[0]
+                           and -32768 <= kids[i][2] - base_inum <= 32767):
+                        grp.append(kids[i])
+                        i += 1
+                    listing += struct.pack("<III", len(grp) - 1, base_ref[0], base_inum)
+                    for (c, ref, inum2, t) in grp:
+                        nm = c["name"]
+                        listing += struct.pack("<HhHH", c.get("o_offset", ref[1]), c.get("o_delta", inum2 - base_inum),
+                                               c.get("o_etype", c.get("etype", t)), c.get("o_namesize", len(nm) - 1) & 0xFFFF) + nm
+                dtab.add(bytes(listing))
+                size = n.get("o_size", len(listing) + 3)
+                ext = n.get("ext") or size > 0xFFFF or xi != NOXATTR
+                ref = itab.pos()
+                nlv = n.get("o_nlink", len(kids) + 2)
+                par = n.get("o_parent", parent_inum)
+                sb, so = n.get("o_start_block", start[0]), n.get("o_offset", start[1])
+                if ext:
+                    itab.add(hdr(8) + struct.pack("<IIIIHHI", nlv, size, sb, par, 0, so, xi))
+                else:
+                    itab.add(hdr(1) + struct.pack("<IIHHI", sb, nlv, size & 0xFFFF, so, par))
+            elif kind == "file":
+                st, words, frag = file_layout[id(n)]
+                words = n.get("o_words", words)
+                st = n.get("o_start", st)
+                frag = n.get("o_frag", frag)
+                size = n.get("o_size", len(n.get("data", b"")))
+                nlv = n.get("o_nlink", nl)
+                sparse = n.get("o_sparse", sum(bs for w in words if w == 0))
+                ext = n.get("ext") or st > 0xFFFFFFFF or size > 0xFFFFFFFF or nlv > 1 or xi != NOXATTR or sparse > 0
+                ref = itab.pos()
+                if ext:
+                    itab.add(hdr(9) + struct.pack("<QQQIIII", st, size, sparse, nlv, frag[0], frag[1], xi))
+                else:
+                    itab.add(hdr(2) + struct.pack("<IIII", st, frag[0], frag[1], size & 0xFFFFFFFF))
+                itab.add(b"".join(struct.pack("<I", w) for w in words))
+            elif kind == "slink":
+                tg = n.get("target", b"")
+                ref = itab.pos()
+                ext = n.get("ext") or xi != NOXATTR
+                itab.add(hdr(10 if ext else 3) + struct.pack("<II", n.get("o_nlink", nl), n.get("o_target_size", len(tg))) + tg)
+                if ext:
+                    itab.add(struct.pack("<I", xi))
+            elif kind in ("blk", "chr"):
+                ref = itab.pos()
+                ext = n.get("ext") or xi != NOXATTR
+                itab.add(hdr(typ + 7 if ext else typ) + struct.pack("<II", n.get("o_nlink", nl), n.get("devno", 0)))
+                if ext:
+                    itab.add(struct.pack("<I", xi))
+            else:
+                ref = itab.pos()
+                ext = n.get("ext") or xi != NOXATTR
+                itab.add(hdr(typ + 7 if ext else typ) + struct.pack("<I", n.get("o_nlink", nl)))
+                if ext:
+                    itab.add(struct.pack("<I", xi))
+            if "id" in n:
+                newknown[n["id"]] = (ref, inum, kind)
+            exports[inum] = (ref[0] << 16) | ref[1]
+            return ref, inum
+
+        rootref, rootnum = emit(root, opts.get("root_parent", 0))
+        if newknown == known:
+            break
+        known = newknown
+    else:
+        raise ValueError("encoder did not converge")
+    ninodes = counter[0]
+    # ---- assemble ----
+    out = bytearray(b"\0" * 96)
+    out += data
+    inode_tbl = len(out)
+    out += itab.serialize()
+    dir_tbl = len(out)
+    out += dtab.serialize()
+    frag_tbl = INVALID64
+    if frags:
+        raw = b"".join(struct.pack("<QII", s, w, 0) for s, w in frags)
+        blocks, locs = _table(raw)
+        base = len(out)
+        out += blocks
+        frag_tbl = len(out)
+        out += b"".join(struct.pack("<Q", base + l) for l in locs)
+    export_tbl = INVALID64
+    if opts.get("export"):
+        raw = b"".join(struct.pack("<Q", exports.get(i, 0)) for i in range(1, ninodes + 1))
+        blocks, locs = _table(raw)
+        base = len(out)
+        out += blocks
+        export_tbl = len(out)
+        out += b"".join(struct.pack("<Q", base + l) for l in locs)
+    idlist = opts.get("ids_override", ids) or [0]
+    raw = b"".join(struct.pack("<I", i & 0xFFFFFFFF) for i in idlist)
+    blocks, locs = _table(raw)
+    base = len(out)
+    out += blocks
+    id_tbl = len(out)
+    out += b"".join(struct.pack("<Q", base + l) for l in locs)
+    xattr_tbl = INVALID64
+    if xsets:
+        kvstart = len(out)
+        out += xkv.serialize()
+        blocks, locs = _table(bytes(xids))
+        base = len(out)
+        out += blocks
+        xattr_tbl = len(out)
+        out += struct.pack("<QII", kvstart, len(xsets), 0)
+        out += b"".join(struct.pack("<Q", base + l) for l in locs)
+    bytes_used = len(out)
+    flags = 0x0001 | 0x0002 | 0x0008 | 0x0800 | 0x0100 | 0x0040
+    if not frags:
+        flags |= 0x0010
+    if not xsets:
+        flags |= 0x0200
+    if opts.get("export"):
+        flags |= 0x0080
+    flags ^= opts.get("flags_xor", 0)
+    sup = dict(magic=MAGIC, inode_count=ninodes, mtime=opts.get("mtime", 0), block_size=bs, frag_count=len(frags),
+               comp_id=opts.get("comp_id", 1), block_log=bs.bit_length() - 1, flags=flags, id_count=len(idlist),
+               vmaj=4, vmin=0, root=(rootref[0] << 16) | rootref[1], bytes_used=bytes_used, id_tbl=id_tbl,
+               xattr_tbl=xattr_tbl, inode_tbl=inode_tbl, dir_tbl=dir_tbl, frag_tbl=frag_tbl, export_tbl=export_tbl)
+    sup.update(opts.get("super_overrides", {}))
+    struct.pack_into("<IIIIIHHHHHHQQQQQQQQ", out, 0, sup["magic"], sup["inode_count"], sup["mtime"], sup["block_size"],
+                     sup["frag_count"], sup["comp_id"], sup["block_log"], sup["flags"], sup["id_count"], sup["vmaj"],
+                     sup["vmin"], sup["root"], sup["bytes_used"], sup["id_tbl"], sup["xattr_tbl"], sup["inode_tbl"],
+                     sup["dir_tbl"], sup["frag_tbl"], sup["export_tbl"])
+    pad = opts.get("pad", 4096)
+    if pad and len(out) % pad:
+        out += b"\0" * (pad - len(out) % pad)
+    return bytes(out), {"known": known, "exports": exports, "super": sup}
